@@ -72,7 +72,7 @@ def parse_model_output(out):
     m2 = re.search(r"Error: Action property (\S+) is violated", out)
     if m2:
         res["violated"] = m2.group(1)
-    if "Temporal properties were violated" in out:
+    if re.search(r"Temporal propert(y|ies) .*violated", out):
         res["violated"] = res["violated"] or "temporal"
     if "Model checking completed. No error has been found." in out:
         res["ok"] = True
